@@ -45,6 +45,14 @@ def gen_cases(tier, rng):
         cases.append('H:f=0 arg:n,number:i0:card=none arg:s:s0:card=none arg:v:b0:init=0/card=none %s exp:%s' % (A.argv_tok(w), exp))
     cases.append('H:f=0 arg:n:i0:card=max~2 arg:s:s0: %s exp:i0=2;s0=s-' % A.argv_tok(['-n', '1', '-n', '2']))
     cases.append('H:f=0 arg:n:i0:card=range~1~3 arg:s:s0: %s exp:i0=3;s0=s-' % A.argv_tok(['-n', '1', '-n', '2', '-n', '3']))
+    # "--" lets every following word be a value, however many follow and whatever they begin with
+    for w, exp in ((['-o', '--', '-1', '-2', '-3'], 'b0=0;s0=s-;vi0=[-1,-2,-3];vs0=[]'),
+                   (['-o', '1', '--', '-2', '3', '-4'], 'b0=0;s0=s-;vi0=[1,-2,3,-4];vs0=[]'),
+                   (['-f', '--', '-alpha', '-beta'], 'b0=1;s0=s-;vi0=[];vs0=[s%s,s%s]' % (A.hx('-alpha'), A.hx('-beta'))),
+                   (['-f', '--', 'plain', '-dashed', '--more'], 'b0=1;s0=s-;vi0=[];vs0=[s%s,s%s,s%s]' % (A.hx('plain'), A.hx('-dashed'), A.hx('--more'))),
+                   (['-n', '--', '-x', '-y'], 'b0=0;s0=s%s;vi0=[];vs0=[s%s]' % (A.hx('-x'), A.hx('-y'))),
+                   (['--', '-a', '-b', '-c'], 'b0=0;s0=s-;vi0=[];vs0=[s%s,s%s,s%s]' % (A.hx('-a'), A.hx('-b'), A.hx('-c')))):
+        cases.append('H:f=0 arg:o:vi0:multi arg:f:b0:init=0 arg:n:s0: arg:-:vs0: %s exp:%s' % (A.argv_tok(w), exp))
     # a value from an argument file stays overridable on the command line, also when the file names a further file
     # in an earlier line
     cases.append('H:f=0 arg:n:i0: arg:v:b0:init=0 arg:arg-file:af0: xfile:%s:%s xfile:%s:%s %s exp:b0=1;i0=5'
@@ -66,7 +74,7 @@ def gen_cases(tier, rng):
                 a.opts.append(rng.choice(['hidden', 'depr', 'nodef']))
         exp = G.expected_store(args, uses)
         et = 'exp:' + ';'.join('%s=%s' % kv for kv in sorted(exp.items()))
-        w = G.spell(rng, uses, args, True, stats)
+        w = G.spell_with_ddash(rng, uses, args, True, stats)
         cases.append(G.case_line(args, cons, w, extra=(et,)))
     return {'cases': cases, 'exhaustive': False,
             'scopes': ['%d cases: random configurations x valid lines x one spelling; productions: %s' % (len(cases), stats)]}
